@@ -77,6 +77,10 @@ def check(run):
     R.rule('C18.replies', 'the automatic replies of a cycle cannot abort it: a Pong that write() refuses is swallowed; a '
                           'Close echo of any legal size is written in the cycle that read the Close', 3)
     C14.swallow(R, RID='C18.replies')
+    with R.as_rule('C18.sameloop'):
+        C14.before(R)            # the Pong is written when the Ping is dispatched - not after the application handled it,
+        C14.branch(R)            # not queued for the end of the read
+        C14.only(R)
     with R.as_rule('C18.replies'):
         C08.echobound(R)
 
